@@ -25,6 +25,20 @@ def long_name(rng, total):
     return labels + [b"org"]
 
 
+# the specification's small id domain is mapped onto 16-bit DNS ids of every shape: bytes >= 0x80 in either half, 0xff
+# halves, pairs that differ only in the high byte (0 stays 0: "no id")
+WIRE_IDS = [0, 0x12b4, 0xffb4, 0x8539, 0x0080, 0xff80, 0x7fff, 0xffff, 0x20c7, 0xffc7, 0x0539, 0x8000, 0x00ff, 0xff00,
+            0x1234, 0x80ff, 0xfe7f, 0x7f80, 0x0001, 0xa5a5, 0x5a5a, 0xfffe, 0x0100, 0x8081]
+
+
+def wire_id(k, seed):
+    if k == 0:
+        return 0
+    if seed % 4 == 0:
+        return k            # every fourth history keeps the small numbers
+    return WIRE_IDS[1 + (k - 1 + seed) % (len(WIRE_IDS) - 1)]
+
+
 def execute(spec):
     import runs
     rng = random.Random(spec["seed"])
@@ -66,14 +80,14 @@ def execute(spec):
                 elif shape == 2:
                     labels = long_name(rng, rng.randrange(6, 254))
                 qt = QT[n % len(QT)]
-                q = D.build_query(m["id"], labels, qt, edns=bool(n % 2))
+                q = D.build_query(wire_id(m["id"], spec["seed"]), labels, qt, edns=bool(n % 2))
                 w.send(addr(m["src"]), (W.SERVER_IP, 53), q, "requester")
                 w.run_until(t=w.now + 3000)
                 outs = []
                 for src, data in got:
                     mm = D.parse(data)
                     same = bool(mm.qd) and mm.qd[0][0] == labels and mm.qd[0][1] == qt and not mm.qr
-                    outs.append((mm.id, same))
+                    outs.append((m["id"] if mm.id == wire_id(m["id"], spec["seed"]) else 70000 + mm.id, same))
                     bind_addr = src
                 stray = sum(1 for e in w.trace[t0:] if e["ev"] == "Send" and e["inst"] == "S" and e["dst"] != RESOLVER)
                 res["c20"].append({"e": "Fwd", "src": m["src"], "id": m["id"], "nout": len(outs) + stray,
@@ -82,7 +96,7 @@ def execute(spec):
                 if bind_addr is None:
                     continue
                 body = bytes(rng.getrandbits(8) for _ in range(rng.randrange(0, 40)))
-                rep = struct.pack(">HHHHHH", m["id"], 0x8180, 0, 0, 0, 0) + body
+                rep = struct.pack(">HHHHHH", wire_id(m["id"], spec["seed"]), 0x8180, 0, 0, 0, 0) + body
                 w.send(RESOLVER, bind_addr, rep, "resolver")
                 w.run_until(t=w.now + 3000)
                 sends = [e for e in w.trace[t0:] if e["ev"] == "Send" and e["inst"] == "S"]
